@@ -302,3 +302,7 @@ package evm
 //@   assert@call(Array20,0): content($arg0) == content(ctx.blockInfo.Header.ProposerAddress)                   [C01,C17]
 //@   assert@call(NewEVM,0): $arg2 == ctrler.stateDBWrapper                                                     [C17]
 //@   assert@store(EVMCtrler.vmevm,0): $target == ctrler                                                        [C01,C17]
+//@   ensures result1 == nil ==> fresh(ctrler.vmevm) && fresh(ctrler.stateDBWrapper)                            [C01,C17]
+//@   must@store(EVMCtrler.blockGasPool,0): result1 == nil                                                      [C17,C16]
+//@   must@call(AddGas,0): result1 == nil                                                                       [C17,C16]
+//@   must@call(NewEVM,0): result1 == nil                                                                       [C01,C17]
